@@ -278,6 +278,9 @@ pub struct Plan {
     /// per-mille: a parked publish/protocol handler is held until the closing phase (it does not
     /// complete while the scripted part runs)
     pub p_hold: u32,
+    /// per-mille: a parked control(Stop) handler is held until the closing phase (simulated time passes
+    /// while the Stop notification is being handled)
+    pub p_hold_ctl: u32,
     /// ok / neg / err weights for handler outcomes
     pub w_outcome: [u32; 3],
     /// eager / lazy / abandon weights for payload reading
